@@ -49,12 +49,12 @@ def memo_policy(ctx, g, wr, key):
     existence.  True when the write was disposed of here (reported as undecided); False when it is for the caller to judge."""
     import re as _re
     recv = wr.text
-    m_ = _re.match(r"^((?:self|cls|class_)\.\w+)", recv)
+    m_ = _re.match(r"^((?:self|cls|class_)(?:\.\w+)+)", recv)
     if m_ is not None:
         from sa import modref as _modref
         tree_ = _modref._tree(g.module.name)
         known = sym._attrs_written_in(tree_) if tree_ is not None else None
-        if known is not None and m_.group(1).split(".")[1] not in known:
+        if known is not None and m_.group(1).split(".")[-1] not in known:
             try:
                 sm_ = sym.summarize(sym.expanded(ctx, g), sym.Canon(sym.make_const_of(ctx, g), None, None))
                 stale = sym.stale_memo(sm_, {m_.group(1)})
